@@ -69,6 +69,9 @@ def run(chk: Check):
     for bi in range(n_base):
         sched = "rr" if bi % 2 == 0 else "rl"
         base = base_scn(rng, sched)
+        # every second pair of base scenarios fails with a BaseException that is not an Exception (KeyboardInterrupt-like)
+        base.fault_base = (bi // 2) % 2 == 1
+        chk.count("fault_class:" + ("BaseException" if base.fault_base else "Exception"))
         free_lines, free_info = run_quiet(base)
         nS, nM, nL = ch.STATE["sampler_calls"], ch.STATE["model_calls"], ch.STATE["loss_calls"]
         space = [("S", k) for k in range(nS)] + [("M", k) for k in range(nM)] + [("L", k) for k in range(nL)]
